@@ -63,7 +63,7 @@ CLAIMED = {
  "C02": dict(
   level="other",
   technique="static analysis: composition of the bit-provenance maps of every encoder/decoder pair, set comparison of encoded and decoded fields, constant-propagation dispatch table",
-  text="Three clauses each necessary for encode-then-decode to be the identity, for all values at once: SYM - the fields whose bits reach the wire equal the integer fields the decoder stores; LAY - encoder map composed with decoder map is the identity on every field bit that reaches the wire and every wire bit the decoder uses (fixed parts and per-entry strides) for 16 pairs (StatusVectorChunk per symbol size with a full symbol list); DSP - the (PT,FMT) each Marshal emits dispatches back to its own Go type (SliceLossIndication: open finding F10d); XR - setup/unpackBlockHeader invert each other on the type-specific octet; CNT - the CCFB count field, whose coding is not the identity, is followed through encoder and decoder by constant propagation for lists of 0..3 metric blocks (n = 1 decodes to 0: open finding F16). Necessary, not sufficient: variable-length parts, list equality and re-marshal byte equality need run-time values and are not covered.",
+  text="Three clauses each necessary for encode-then-decode to be the identity, for all values at once: SYM - the fields whose bits reach the wire equal the integer fields the decoder stores; LAY - encoder map composed with decoder map is the identity on every field bit that reaches the wire and every wire bit the decoder uses (fixed parts and per-entry strides) for 16 pairs (StatusVectorChunk per symbol size with a full symbol list); DSP - the (PT,FMT) each Marshal emits dispatches back to its own Go type (SliceLossIndication: open finding F10d); XR - setup/unpackBlockHeader invert each other on the type-specific octet; CNT - the CCFB count field, whose coding is not the identity, is followed through encoder and decoder by constant propagation for lists of 0..3 metric blocks (n = 1 decodes to 0: open finding F16); XRH - in each of the 8 setupBlockHeader methods every read of an XRHeader field (or copy of the whole header) is dominated by a store to it in the same call and the header's address is passed to no call, so the block header emitted is a function of the semantic fields and not of what an earlier Marshal/Unmarshal left in the value. Necessary, not sufficient: variable-length parts, list equality and re-marshal byte equality need run-time values and are not covered.",
   note="Trusted: go/ssa, checker/bits, checker/pe, registry.",
   design="DESIGN.md §2 C02"),
  "C09": dict(
@@ -75,7 +75,7 @@ CLAIMED = {
  "C14": dict(
   level="other",
   technique="static analysis: SSA dominator conditions, numeric abstract interpretation and bit provenance for the integer clauses of the REMB codec",
-  text="The numeric core of this property - decode = mantissa x 2^exponent for all 2^24 pairs, encode = largest representable value not above x, monotone, saturating - is IEEE-754 float32 arithmetic and is NOT decided by this check (no engine here models floating point). Decided are only its integer/structural clauses, each a necessary condition: NEG - every nil-error return of MarshalTo is dominated by `bitrate < 0` being false for the receiver's (clamped) bitrate, so a negative bitrate is rejected; EXP - the exponent shifted into octet 17 is entailed within 0..63 at every nil-error return; PACK - the mantissa bits OR-ed into octet 17 next to the exponent are entailed <= 3 (an upper bound of the float bitrate learned from the exit of the normalisation loop is carried through math.Floor into the integer mantissa - the only floating-point fact the engine tracks; NaN is outside the model); NORM - the decode-side loop that left-normalises the mantissa can be left only when bit 23 (the implicit leading bit) is set; CNT-ENC - octet 16 is the low 8 bits of len(SSRCs) and len(SSRCs) <= 255 at every nil-error return; CNT-DEC - Unmarshal returns nil only with len(p.SSRCs) = buf[16]; ZERO - the decoder evaluated by constant propagation on the packets with a zero mantissa (exponents 0, 1, 47, 63) must not store a definite non-zero float (it does: open finding F17, 0 x 2^e decodes to 2^(e+23)). A reader must not take a pass here as evidence about bitrate values.",
+  text="The numeric core of this property - decode = mantissa x 2^exponent for all 2^24 pairs, encode = largest representable value not above x, monotone, saturating - is IEEE-754 float32 arithmetic and is NOT decided by this check (no engine here models floating point). Decided are only its integer/structural clauses, each a necessary condition: NEG - every nil-error return of MarshalTo is dominated by `bitrate < 0` being false for the receiver's (clamped) bitrate, so a negative bitrate is rejected; EXP - the exponent shifted into octet 17 is entailed within 0..63 at every nil-error return; PACK - the mantissa bits OR-ed into octet 17 next to the exponent are entailed <= 3 (an upper bound of the float bitrate learned from the exit of the normalisation loop is carried through math.Floor into the integer mantissa - the only floating-point fact the engine tracks; NaN is outside the model); NORM - the decode-side loop that left-normalises the mantissa can be left only when bit 23 (the implicit leading bit) is set; CNT-ENC - octet 16 is the low 8 bits of len(SSRCs) and len(SSRCs) <= 255 at every nil-error return; CNT-DEC - Unmarshal returns nil only with len(p.SSRCs) = buf[16]; ZERO - the decoder evaluated by constant propagation on the packets with a zero mantissa (exponents 0, 1, 47, 63) must not store a definite non-zero float (it does: open finding F17, 0 x 2^e decodes to 2^(e+23)); ENORM - the encoder's loop that halves the float bitrate is guarded by a comparison whose continue-set is exactly [2^18, inf) (x >= 262144, its negation or mirror image, or x > 262143 on an integer-valued x) and an integer counter starting at 0 grows by exactly 1 in the halving block (needed for 'largest 18-bit mantissa, minimal exponent'; an encoder without a halving loop is only noted). A reader must not take a pass here as evidence about bitrate values.",
   note="Trusted: go/ssa, checker/num, checker/bits. Six obligations.",
   design="DESIGN.md §8 (C14 as built)"),
  "C08": dict(
@@ -93,7 +93,7 @@ CLAIMED = {
  "C11": dict(
   level="other",
   technique="static analysis: constant-propagation evaluation of Validate/CNAME/Marshal/Unmarshal over all member dynamic types and SDES item type codes, plus SSA def-use/dominance rules",
-  text="Decides structural clauses that are necessary for the compound rules, for every dynamic type of the first and of later members and every SDES item type 0..8: which first-member types pass (FIRST), the per-member outcome of the scan incl. which member types let the scan continue, that success is controlled by a monotone flag set only under item.Type==SDESCNAME, that the scan loop carries no other state (SCAN), that Marshal produces bytes only after Validate()==nil and Unmarshal returns nil only as Validate() of the list it just stored and loops until the datagram is empty (GATE), that CNAME() returns the Text of the item just compared equal to SDESCNAME from inside the scan and that the error it carries can only be assigned at a member that is neither SDES nor RR, where Validate fails (CNAME). It does not decide grammar equivalence for all sequences (that would be a runtime enumeration); a reader should take it as: the decision structure is the RFC one, not that every sequence was tried.",
+  text="Decides structural clauses that are necessary for the compound rules, for every dynamic type of the first and of later members and every SDES item type 0..8: which first-member types pass (FIRST), the per-member outcome of the scan incl. which member types let the scan continue, that success is controlled by a monotone flag set only under item.Type==SDESCNAME, that the scan loop carries no other state (SCAN), that Marshal produces bytes only after Validate()==nil and Unmarshal returns nil only as Validate() of the list it just stored and loops until the datagram is empty (GATE), that CNAME() returns the Text of the item just compared equal to SDESCNAME from inside the scan and that the error it carries can only be assigned at a member that is neither SDES nor RR, where Validate fails (CNAME); AGG - CompoundPacket.DestinationSSRC abstracts (sequence provenance of C10) to nothing for the empty compound and else exactly the list of member 0, and CompoundPacket.MarshalSize is an accumulator over every member (shape rule of C05). It does not decide grammar equivalence for all sequences (that would be a runtime enumeration); a reader should take it as: the decision structure is the RFC one, not that every sequence was tried.",
   note="Trusted: go/ssa, checker/pe evaluator. Not covered: DestinationSSRC/MarshalSize aggregation (C10/C05).",
   design="DESIGN.md §2 C11"),
  "C10": dict(
